@@ -24,3 +24,4 @@ import Proofs.Gen
 #print axioms Xsel.C07.substring_before_after_spec
 #print axioms Xsel.C07.substring_before_after_examples
 #print axioms Xsel.Gen.builtins_agree
+#print axioms Xsel.Gen.builtins_table_agree
